@@ -160,10 +160,21 @@ pub fn run_c06(out: &mut Out, tier: &str, seed: u64) {
             Ok(Err(e)) => out.case("sercheck", &[&h, "", "compact"], &format!("error:{}", e.to_string().lines().next().unwrap_or("")), true),
             Ok(Ok((s1, s2, disp, vecs, pretty, d2))) => {
                 // the serialized text denotes the same tree and is exactly the canonical compact form
-                out.case("sercheck", &[&h, &hex(s1.as_bytes()), "compact"], "ok", true);
-                out.case("sercheck", &[&h, &hex(pretty.as_bytes()), "pretty"], "ok", true);
+                // feature builds: sort_keys -> members sorted (stable), nothing else changes;
+                // arbitrary_precision -> every number literal verbatim
+                let (mc, mp) = if cfg!(feature = "sort_keys") {
+                    ("compact-sorted", "pretty-sorted")
+                } else if cfg!(feature = "arbitrary_precision") {
+                    ("compactraw", "prettyraw")
+                } else {
+                    ("compact", "pretty")
+                };
+                out.case("sercheck", &[&h, &hex(s1.as_bytes()), mc], "ok", true);
+                out.case("sercheck", &[&h, &hex(pretty.as_bytes()), mp], "ok", true);
                 // re-parsed value equals the reference tree of the source
-                out.case("dump", &[&h, "reparse of to_string"], &d2, true);
+                if !cfg!(feature = "sort_keys") {
+                    out.case(if cfg!(feature = "arbitrary_precision") { "dumpraw" } else { "dump" }, &[&h, "reparse of to_string"], &d2, true);
+                }
                 // fixpoint and agreement of Display / to_string / to_vec (compared inside the implementation)
                 let same = s1 == s2 && s1 == disp && s1 == vecs;
                 out.case("expect", &["fixpoint+display+to_vec", &h], if same { "true" } else { "false" }, true);
@@ -175,7 +186,11 @@ pub fn run_c06(out: &mut Out, tier: &str, seed: u64) {
             sonic_rs::to_string(&v)
         });
         match r {
-            Ok(Ok(s)) => out.case("sercheck", &[&h, &hex(s.as_bytes()), "compactraw"], "ok", true),
+            Ok(Ok(s)) => {
+                if !cfg!(feature = "sort_keys") {
+                    out.case("sercheck", &[&h, &hex(s.as_bytes()), "compactraw"], "ok", true)
+                }
+            }
             Ok(Err(_)) => out.case("sercheck", &[&h, "", "compactraw"], "error", true),
             Err(p) => out.case("sercheck", &[&h, "", "compactraw"], &format!("panic:{p}"), true),
         }
